@@ -32,6 +32,8 @@ func runC03(c *Ctx) {
 	c.Rule("C03.O7", "E4", "onConnected(c, nil) is dominated by evidence that the connect succeeded; teardown reports a still-pending dial callback", 2)
 	c03AlwaysNotifies(c, "C03.O9")
 	c.Rule("C03.O10", "E4", "the dial timer is armed only for a connect that is still pending: a dial that is reported as a success is never closed by its own dial timer", 1)
+	c.Rule("C03.O11", "E1", "every access of the UDP listener's session table (lookup, insert, delete, range, reset) holds the table's own lock, udpConn.mux", 4)
+	c03UDPSessionTable(c)
 	c16DialTimerPending(c, "C03.O10")
 	c03DialClassify(c)
 
